@@ -89,6 +89,9 @@ def convert(model: nn.Module, input_example: Any, conversion_type: str,
     if conversion_type not in ('import', 'autoimport', 'export'):
         raise ValueError("Unsupported conversion type {}".format(conversion_type))
 
+    # tracing and shape propagation need eval(), but the caller's model (whose sub-modules are shared
+    # by reference with the converted one) gets the training flags it came with back at the end
+    found_training = [(m, m.training) for m in model.modules()]
     tracer = PITTracer()
     graph = tracer.trace(model.eval())
     name = model.__class__.__name__
@@ -113,6 +116,9 @@ def convert(model: nn.Module, input_example: Any, conversion_type: str,
     mod.recompile()
     nlf = named_leaf_modules(mod)
     ulf = uniquify_leaf_modules(nlf)
+    if conversion_type != 'export':
+        for m, mode in found_training:
+            m.training = mode
     return mod, nlf, ulf
 
 
